@@ -22,17 +22,17 @@ import (
 
 // bodyScript scripts what one in-memory target answers.
 type bodyScript struct {
-	DialErr     string   // non-empty: the round trip fails with this error
-	Status      int      // default 200
-	ContentType string   // default text/plain; version=0.0.4
-	Gzip        bool     // wire body is gzip(Body)
-	Body        []byte   // exposition payload (before compression)
-	Chunks      []int    // sizes of successive Read results over the wire bytes (nil: one Read per 32 KiB)
-	ErrAt       int      // >=0: after this many WIRE bytes the body returns Err (repeatedly)
-	Err         string   // error text; "unexpected EOF" maps to io.ErrUnexpectedEOF
-	Stall       bool     // the body blocks after StallAt wire bytes until the request context ends
+	DialErr     string // non-empty: the round trip fails with this error
+	Status      int    // default 200
+	ContentType string // default text/plain; version=0.0.4
+	Gzip        bool   // wire body is gzip(Body)
+	Body        []byte // exposition payload (before compression)
+	Chunks      []int  // sizes of successive Read results over the wire bytes (nil: one Read per 32 KiB)
+	ErrAt       int    // >=0: after this many WIRE bytes the body returns Err (repeatedly)
+	Err         string // error text; "unexpected EOF" maps to io.ErrUnexpectedEOF
+	Stall       bool   // the body blocks after StallAt wire bytes until the request context ends
 	StallAt     int
-	StallBefore bool     // block before the response headers until the request context ends
+	StallBefore bool // block before the response headers until the request context ends
 }
 
 func (b *bodyScript) wire() []byte {
@@ -281,14 +281,14 @@ func proxyURLFor(job string, h uint64) string {
 }
 
 type scrapeOutcome struct {
-	Status   int
-	Header   http.Header
-	Body     []byte
-	Aborted  bool   // handler aborted the response (direct) / client saw a transport error (tcp)
-	ReadErr  string // client-side error text
-	Panic    string // any other panic of the handler
-	LateHdr  []int
-	NWrites  int
+	Status  int
+	Header  http.Header
+	Body    []byte
+	Aborted bool   // handler aborted the response (direct) / client saw a transport error (tcp)
+	ReadErr string // client-side error text
+	Panic   string // any other panic of the handler
+	LateHdr []int
+	NWrites int
 }
 
 // scrapeDirect calls Proxy.ServeHTTP with an instrumented writer.
